@@ -4,7 +4,7 @@ use std::{
     sync::{Arc, Mutex, atomic::{AtomicUsize, Ordering}},
 };
 
-use ptverif::{alloc, engine, exec, filebuf, server};
+use ptverif::{alloc, engine, exec, filebuf, pre, prims, server};
 
 #[global_allocator]
 static A: alloc::Counting = alloc::Counting;
@@ -56,6 +56,14 @@ fn main() {
                                     serde_json::from_str(&lines[i]).expect("job json");
                                 let r = engine::run_engine(&job, &work);
                                 engine::to_ndjson(&job, &r, &mut out);
+                            }
+                            "pre" => {
+                                let job: pre::PreJob = serde_json::from_str(&lines[i]).expect("job json");
+                                out.push(pre::run_pre(&job));
+                            }
+                            "prims" => {
+                                let job: prims::PrimJob = serde_json::from_str(&lines[i]).expect("job json");
+                                out.push(prims::run_prim(&job));
                             }
                             "filebuf" => {
                                 let job: filebuf::BufJob =
